@@ -71,6 +71,21 @@ theorem Dead.foldl {p : Pool} (h : Dead p) (us : List Use) :
 theorem popRel_dead (p : Pool) (hf : p.fatal = false) : Dead (ClonePool.use p .popRel) := by
   rw [use_of_not_fatal hf]; exact ⟨rfl, by simp [xAR, skipAF, afState]⟩
 
+/-- the model's mirror of the `runFinalizers` loop runs the WHOLE batch, whichever finalisers raise -/
+theorem runFinalizers_fst (raises : Nat → Bool) (b : List TEv) : (runFinalizers raises b).1 = b := by
+  induction b with
+  | nil => rfl
+  | cons e t ih => cases e <;> simp [runFinalizers, ih]
+
+theorem onCurrent_facts (s : Rt) (p : Pool) (rest : List Pool) (hs : s.live = p :: rest) (u : Use) (d : Nat) :
+    (onCurrent s u d).log = s.log ++ (delta p (ClonePool.use p u)).filter isLogEv ∧
+    (onCurrent s u d).live = ClonePool.use p u :: rest ∧
+    (onCurrent s u d).fatal = (s.fatal || (ClonePool.use p u).fatal) ∧
+    (onCurrent s u d).dead = s.dead ∧ (onCurrent s u d).frames = s.frames := by
+  unfold onCurrent
+  rw [hs]
+  simp [runFinalizers_fst]
+
 /-- the runtime log after a killed CallContext: nothing finalised, the pool's owed releases appended -/
 theorem callKilled_log (s : Rt) (p : Pool) (rest : List Pool) (hs : s.live = p :: rest)
     (hf : s.fatal = false) (hpf : p.fatal = false) :
@@ -80,8 +95,7 @@ theorem callKilled_log (s : Rt) (p : Pool) (rest : List Pool) (hs : s.live = p :
     show (prim s .popRel).log = _
     unfold GcRuntime.prim
     simp only [hf, Bool.false_eq_true, if_false]
-    have h1 : (onCurrent s .popRel).log = s.log ++ (delta p (ClonePool.use p .popRel)).filter isLogEv := by
-      unfold onCurrent; rw [hs]
+    have h1 := (onCurrent_facts s p rest hs .popRel (List.dropWhile (fun b => b == false) s.frames).length).1
     split <;> exact h1
   rw [hlog, delta_of_append (popRel_tr hpf), finOrders_append, relOrders_append, finOrders_filter_log,
     relOrders_filter_log]
@@ -96,18 +110,15 @@ theorem callDone_log (s : Rt) (p : Pool) (rest : List Pool) (hs : s.live = p :: 
     finOrders (rstep s .callDone).log = finOrders s.log ++ ords (afOut p) := by
   have hp' : (ClonePool.use p .finAll).fatal = false := by
     rw [use_of_not_fatal hpf]; simpa [xAF, afState] using hpf
-  have h1 : prim s .finAll = { s with live := (ClonePool.use p Use.finAll) :: rest,
-                                      log := s.log ++ (delta p (ClonePool.use p Use.finAll)).filter isLogEv,
-                                      fatal := false } := by
+  have h1 : prim s .finAll = onCurrent s .finAll s.frames.length := by
     unfold GcRuntime.prim
     simp only [hf, Bool.false_eq_true, if_false]
-    unfold onCurrent; rw [hs]; simp [hf, hp']
+  obtain ⟨f1, f2, f3, _, _⟩ := onCurrent_facts s p rest hs .finAll s.frames.length
   show finOrders (prim (prim s .finAll) .popRel).log = _
-  have h2 := (callKilled_log (prim s .finAll) (ClonePool.use p .finAll) rest (by rw [h1]) (by rw [h1]) hp').1
+  have h2 := (callKilled_log (prim s .finAll) (ClonePool.use p .finAll) rest (by rw [h1, f2])
+    (by rw [h1, f3, hf, hp']; rfl) hp').1
   have h2' : finOrders (prim (prim s .finAll) .popRel).log = finOrders (prim s .finAll).log := h2
-  rw [h2', h1]
-  show finOrders (s.log ++ (delta p (ClonePool.use p .finAll)).filter isLogEv) = _
-  rw [delta_of_append (finAll_tr hpf), finOrders_append, finOrders_filter_log, finOrders_finEvs]
+  rw [h2', h1, f1, delta_of_append (finAll_tr hpf), finOrders_append, finOrders_filter_log, finOrders_finEvs]
 
 theorem count_one_of_nodup_mem {l : List Nat} (hn : l.Nodup) {a : Nat} (h : a ∈ l) : l.count a = 1 := by
   induction l with
